@@ -167,6 +167,9 @@ class Discharger:
         f = s.fw.fn
         if f.trait is not None or (f.item.get('vis') or '') == 'pub' or f.name in ('main',):
             return None
+        # a helper whose calls have all been replaced by its body (N8) is not referred to any more in the normalised crate, but it runs
+        if id(f) in getattr(self.cx.crate, 'fully_inlined', ()) or getattr(self.cx.crate, 'inlined_into', {}).get(id(f), 0) > 0:
+            return None
         if getattr(self, '_refs', None) is None:
             from ..syn import walk_json
             refs = set()
@@ -576,7 +579,8 @@ class Discharger:
         for a in args[1:]:
             t = tm.term(a, s.ev.scope)
             if isinstance(t, tuple) and (t[0] in ('idx', 'format_ident') or (t[0] == 'unwrap' and t[1][0] == 'field' and t[1][2] == 'ident')
-                                         or (t[0] == 'field' and t[2] == 'ident')):
+                                         or (t[0] == 'field' and t[2] == 'ident')
+                                         or (t[0] == 'some_of' and isinstance(t[1], tuple) and t[1][0] == 'field' and t[1][2] == 'ident')):
                 continue
             srcs = []
             self.field_sources(t, s.fw, srcs)
@@ -698,7 +702,7 @@ def check_termination(cx, cg, fns, rep):
                 else:
                     rep.ok('TERM', '%s|for %s' % (f.qname, es(it)[:60]))
             elif ev.kind == 'loop':
-                if structural_descent_loop(ev.node):
+                if structural_descent_loop(ev.node, cx):
                     rep.ok('TERM', '%s|structural descent loop' % f.qname, {'file': f.file, 'line': ev.line, 'why': '`while let P(x) = v { v = <a field of x> }` walks down a finite syntax tree'})
                 elif fresh_name_loop_ok(fw, ev, cx):
                     rep.ok('TERM', '%s|fresh-name search loop' % f.qname, {'file': f.file, 'line': ev.line, 'why': 'candidate grows every iteration; exits when absent from a finite set'})
@@ -716,12 +720,18 @@ def check_termination(cx, cg, fns, rep):
             rep.bad('TERM', f.qname, 'recursion', 'recursive function without a structurally decreasing argument', f.file, f.line)
 
 
-def structural_descent_loop(node):
+def structural_descent_loop(node, cx=None):
     """`while let Variant(x) = v { v = x.field[.as_ref()/&..]; }`: every iteration replaces v by a strict sub-term of itself"""
     if node.get('k') != 'While' or not isinstance(node.get('cond'), dict) or node['cond'].get('k') != 'Let':
         return False
     c = node['cond']
     v = strip_refs(c['expr'])
+    if v['k'] == 'Call' and v['func']['k'] == 'Path' and v['func']['path']['segs'][-1]['id'] == 'ungroup' and len(v['args']) == 1 and cx is not None:
+        # `while let Variant(x) = ungroup(v)`: the helper (shape checked by the SUM-DEREF rule) returns its argument or a part of it
+        from .c09 import check_ungroup_helper
+        from ..report import Report
+        if check_ungroup_helper(cx, Report('C17')):
+            v = strip_refs(v['args'][0])
     if v['k'] != 'Path' or len(v['path']['segs']) != 1:
         return False
     p = c['pat']
